@@ -27,9 +27,17 @@ def two_faults(mode, prev, size, thr, chunk, io, f1, f2):
     return FT.pick(FT.judge(c, 'down-path', size, thr, prev=prev), 'c06')
 
 
-def legacy(mode, prev, size, thr, chunk, fault_at, phase):
-    c = L.download(size, thr, chunk, fault_at, phase, prev=prev)
+def legacy_sched(mode, prev, size, thr, chunk, fault_at, phase, c0, c1, c2):
+    """C06.2s: the legacy ranged download with the pool's tasks (part downloads, the IO writer) started and completed
+    in an order decided by symbolic choices (lazy pool model, harness/legacy.py)"""
+    return legacy(mode, prev, size, thr, chunk, fault_at, phase, (c0, c1, c2))
+
+
+def legacy(mode, prev, size, thr, chunk, fault_at, phase, choices=()):
+    c = L.download(size, thr, chunk, fault_at, phase, prev=prev, choices=choices)
     st, val = c.outcome
+    if st == 'stuck':
+        return '~'
     ok = st == 'ok'
     fs = c.fs
     if fs.bad:
@@ -86,7 +94,21 @@ OBLIGATIONS = FT.fault_obligations('c06', 'C06', which=['down-path']) + [
                 'the other through the real ShutdownQueue): 2 parts of <= 16 KiB; one fault at a symbolic index',
          encodes=['s3transfer.MultipartDownloader.download_file', '_download_range', '_perform_io_writes',
                   'ShutdownQueue'],
-         assumptions=['S1', 'S2', 'serial pool: no real thread interleaving']),
+         assumptions=['S1', 'S2', 'lazy pool model in submission order']),
+    dict(id='C06.2s', impl='legacy_sched',
+         params='size: int, thr: int, chunk: int, fault_at: int, phase: int, c0: int, c1: int, c2: int',
+         cases=[('ranged', False), ('ranged', True)],
+         pre=['-1 <= fault_at <= 30', 'phase == 0', '1 <= thr <= size', '1 <= chunk <= 16384', 'chunk < size <= 2 * chunk',
+              '0 <= c0 <= 2 and 0 <= c1 <= 2 and 0 <= c2 <= 2'],
+         splits=[['c0 == 0'], ['c0 >= 1']],
+         timeout=(150, 900),
+         bounds='as C06.2r, with the order in which the pool\'s tasks (IO writer, part downloads) start and complete '
+                'decided by 3 symbolic choices: parts before the writer, the writer first (blocked on the empty queue '
+                'while the parts run), parts in either order',
+         encodes=['s3transfer.MultipartDownloader.download_file (concurrent.futures.wait / return_when)',
+                  '_process_future_results', '_download_file_as_future', '_perform_io_writes', 'ShutdownQueue'],
+         assumptions=['S1', 'S2', 'lazy pool model: tasks run to completion, overlapping only by nesting at a blocking '
+                      'queue operation (LIFO)']),
 ]
 # the single-GET cases only make sense for the 'single' label
 [o for o in OBLIGATIONS if o['id'] == 'C06.2'][0]['cases'] = [('single', False), ('single', True)]
